@@ -189,6 +189,13 @@ func Add(a, b *Term) *Term {
 	if b.IsConst() && b.N.Sign() < 0 {
 		return mk("-", IntS, a, NumB(new(big.Int).Neg(b.N)))
 	}
+	// x + (y - x) = y
+	if b.Op == "-" && len(b.Args) == 2 && same(b.Args[1], a) {
+		return b.Args[0]
+	}
+	if a.Op == "-" && len(a.Args) == 2 && same(a.Args[1], b) {
+		return a.Args[0]
+	}
 	return mk("+", IntS, a, b)
 }
 
@@ -198,6 +205,15 @@ func Sub(a, b *Term) *Term {
 	}
 	if same(a, b) {
 		return Zero
+	}
+	// (x + y) - x = y
+	if a.Op == "+" && len(a.Args) == 2 {
+		if same(a.Args[0], b) {
+			return a.Args[1]
+		}
+		if same(a.Args[1], b) {
+			return a.Args[0]
+		}
 	}
 	return mk("-", IntS, a, b)
 }
